@@ -131,6 +131,8 @@ type Interp struct {
 	monitor   map[string]int
 	stubs     map[string]Value
 	permute   bool
+	divCache  map[[2]int]*sym.Term
+	lastQ     *sym.Term
 	faultAt   int // index of failing DB call (-1 none)
 	dbCalls   int
 	crashAt   int
